@@ -11,3 +11,6 @@ import DateutilVerif.Properties.C12
 #print axioms C12.fast_eq_spec
 #print axioms C12.query_cache_independent
 #print axioms C12.early_exit_sound
+#print axioms C12.replace_spec
+#print axioms C12.replace_named_only
+#print axioms C12.replace_nothing
